@@ -38,13 +38,14 @@ func (b *listItemParser) Open(parent ast.Node, reader text.Reader, pc Context) (
 
 	pc.Set(emptyListItemWithBlankLines, nil)
 
-	itemOffset := calcListOffset(line, match)
+	lineOffset := reader.LineOffset()
+	itemOffset := calcListOffset(line, match, lineOffset)
 	node := ast.NewListItem(match[3] + itemOffset)
 	if match[4] < 0 || util.IsBlank(line[match[4]:match[5]]) {
 		return node, NoChildren
 	}
 
-	pos, padding := util.IndentPosition(line[match[4]:], match[4], itemOffset)
+	pos, padding := util.IndentPosition(line[match[4]:], lineOffset+match[4], itemOffset)
 	child := match[3] + pos
 	reader.AdvanceAndSetPadding(child, padding)
 	return node, HasChildren
